@@ -229,6 +229,9 @@ namespace {
       std::deque<impl::ref_sequence<ipr::Type>> client_seqs;       // sequences a client keeps alive (get_product(const Sequence&))
       std::vector<Obj> names;
       std::map<Obj, int> index;
+      // growing containers a client owns, by their type() node (a Product the Lexicon never unified): how to add a member
+      struct Live { impl::Mapping* mapping = nullptr; impl::Class* cls = nullptr; };
+      std::map<const ipr::Node*, Live> live;
       int fresh_counter = 0;
       Placed_type* placed[placed_slots] { };
       bool placed_used[placed_slots] { };
@@ -583,8 +586,47 @@ namespace {
             return h.name(*h.region().declare_primary_template(nm, fa));
          }
          case 6: need(1); return h.name(*L.make_phantom());
+         case 8: {                                // a parameter list: named by its type, the Product of its parameters' types
+            need(1);
+            auto* m = L.make_mapping(h.region(), ipr::Mapping_level{1});
+            const ipr::Product& ty = m->parameters().type();
+            h.live[&ty].mapping = m;
+            return h.name(ty);
+         }
+         case 9: {                                // the scope of a class: named by its type, the Product of its members' types
+            need(1);
+            auto* c = L.make_class(h.region());
+            const ipr::Product& ty = dynamic_cast<const ipr::Product&>(c->region().bindings().type());
+            h.live[&ty].cls = c;
+            return h.name(ty);
+         }
          default: throw Bad{};
          }
+      }
+      // one more member at the end of a growing container
+      if (op == "grow") {
+         need(3);
+         auto it = h.live.find(&h.node<ipr::Node>(w[1]));
+         if (it == h.live.end()) throw Bad{};
+         auto& nm = h.node<ipr::Name>(w[2]);
+         auto& ty = h.node<ipr::Type>(w[3]);
+         if (it->second.mapping != nullptr) it->second.mapping->param(nm, ty);
+         else it->second.cls->declare_field(nm, ty);
+         return "ok";
+      }
+      // a product / sum requested with the container's own (live) sequence of member types; the line repeats what that sequence
+      // must read at this moment
+      if (op == "product_live" or op == "sum_live") {
+         if (n < 1) throw Bad{};
+         auto& ty = h.node<ipr::Product>(w[1]);
+         if (h.live.count(&ty) == 0) throw Bad{};
+         auto ts = types(2);
+         const ipr::Sequence<ipr::Type>& seq = ty.operand();
+         if (seq.size() != ts.size()) throw Bad{};
+         for (std::size_t i = 0; i < ts.size(); ++i)
+            if (&seq.get(i) != ts[i]) throw Bad{};
+         if (op == "product_live") return h.name(L.get_product(seq));
+         return h.name(L.get_sum(seq));
       }
       // a client-built type node at a chosen address (ordinary operand of everything above)
       if (op == "placed") {
